@@ -310,4 +310,18 @@ theorem C15_retain_filter_eq_model (p : Nat → Bool) (vec : Array Nat) (b : BSt
 
 example : (retain (fun (_ : Unit) x => ((), x % 2 == 1)) () #[7, 3, 4, 7, 0, 9]).1 = #[7, 3, 7, 9] := by decide
 
+/-- Site 9, the in-place `ArrayStore &= &ArrayStore` / `-= &ArrayStore` exactly as written: the index-level `retain` loop
+    with the closure whose captured state is the index `i` into `rhs`
+    (`i += rhs.iter().skip(i).position(|y| *y >= x).unwrap_or(rhs.vec.len()); rhs.vec.get(i).map_or(..)`), started at
+    `i = 0`, computes the list-level model `Arr.andAssign` / `Arr.subAssign` — on arbitrary (also ill-formed) vectors. -/
+theorem C15_retain_index_closure_eq_model (vec rhs : Array Nat) :
+    (retain (andClosureIdx rhs.toList) 0 vec).1.toList = Arr.andAssign vec.toList rhs.toList
+    ∧ (retain (subClosureIdx rhs.toList) 0 vec).1.toList = Arr.subAssign vec.toList rhs.toList :=
+  ⟨retain_andIdx vec rhs, retain_subIdx vec rhs⟩
+
+/-- unsorted operands with duplicates; the index runs past `rhs.len()` once nothing `≥ x` is left -/
+example : (retain (andClosureIdx [1, 7, 7, 2]) 0 #[5, 7, 1, 9, 2]).1 = #[7] ∧
+    (retain (subClosureIdx [1, 7, 7, 2]) 0 #[5, 7, 1, 9, 2]).1 = #[5, 1, 9, 2] ∧
+    (retain (andClosureIdx [1, 7, 7, 2]) 0 #[5, 7, 1, 9, 2]).2.1 = 9 := by decide
+
 end Roaring.C15
